@@ -62,8 +62,8 @@ let leaf_line toks =
 (* ---------------- shared helpers for script domains ---------------- *)
 let int_of_n x = Z.to_int (z_of_n x)
 let n_of_int i = n_of_z (Z.of_int i)
-let rec int_of_nat = function O -> 0 | S n -> 1 + int_of_nat n
-let rec nat_of_int i = if i <= 0 then O else S (nat_of_int (i - 1))
+let int_of_nat n = let rec go n acc = match n with O -> acc | S m -> go m (acc + 1) in go n 0
+let nat_of_int i = let rec go i acc = if i <= 0 then acc else go (i - 1) (S acc) in go i O
 
 let err_name = function
   | OobIndex -> "OobIndex" | NullDeref -> "NullDeref" | Underflow -> "Underflow" | DivZero -> "DivZero"
@@ -178,7 +178,7 @@ end
 module SkS = struct
   open SkelSpec
   let parse_k tok =
-    if String.length tok > 0 && tok.[0] = '#' then int_of_string (String.sub tok 1 (String.length tok - 1)) else 1000000000
+    if String.length tok > 0 && tok.[0] = '#' then int_of_string (String.sub tok 1 (String.length tok - 1)) else 100000
   let key_of toks = Stdlib.List.fold_left (fun k t -> k lor (1 lsl (reg_pal (int_of_string t)))) 0 toks
   let dump (sp : sst) =
     let n = int_of_nat sp.sp_count in
@@ -469,7 +469,7 @@ end
 (* ---------------- manager specification domain (tier A of C02/C03/C05/C09/C12/C13) ---------------- *)
 module MgS = struct
   open MgrSpec
-  let big = 1000000000
+  let big = 100000
   let parse_k tok = if String.length tok > 1 && tok.[0] = '#' then int_of_string (String.sub tok 1 (String.length tok - 1)) else big
   let dump (s : xst) =
     let n = int_of_nat s.x_count in
